@@ -5,9 +5,11 @@ import Revm.Model.Interp
 
 * `begin interp <spec> <gas> <static> <code> <input> <target> <caller> <value> <env>` → `ok len=<code buffer len> pc=0`
   `<env>` = `chainid,coinbase,timestamp,number,difficulty,prevrandao|-,gaslimit,basefee,gasprice,prio|-,origin,h1+h2..|-,blobgasprice|-,limit|-` (hex)
-* `i s <resp>` one instruction; `<resp>` = `-` or `ok:word:bytes:cold:orig:pres:new:flags:deleg` (the scripted host answer)
-* `i ret <result>:<gas remaining>:<refunded>:<output>:<address|->` re-entry of a child result after an action
-* `i dump` full digests
+* `begin eof <spec> <gas> <static> <sections s1+s2..> <types i.o.m+..> <data> <datasize> <input> <target> <caller> <value> <env>`: EOF mode
+  (replies then end with ` fs=<return stack len>:<current section> cl=<section len>`)
+* `i s <tag> <resp>` one instruction (`<tag>` = case.step, ignored); `<resp>` = `-` or `ok:word:bytes:cold:orig:pres:new:flags:deleg` (the scripted host answer)
+* `i ret <tag> <result>:<gas remaining>:<refunded>:<output>:<address|->` re-entry of a child result after an action
+* `i dump <tag>` full digests
   reply of `s`/`ret`: `pc= r= g= rf= n= top= sd= ms= md= rd=` [` h=<host call>`] [` act=<action>`] [` out=<len>:<digest>`],
   `panic` for a modelled Rust panic, `oob-code|oob-stack|oob-memory` for a modelled out-of-buffer access
 * `interp run <spec> <gas> <static> <code> <input> <target> <caller> <value> <env> <hostq> <childq> <keccakq>`
@@ -69,6 +71,34 @@ def parseInit (toks : List String) : Option IState :=
     | _, _, _, _, _, _, _, _, _ => none
   | _ => none
 
+def parseList {α} (sep : String) (p : String → Option α) (tok : String) : Option (List α) :=
+  if tok = "-" then some [] else
+  (tok.splitOn sep).foldr (fun t acc => match p t, acc with
+    | some x, some l => some (x :: l) | _, _ => none) (some [])
+
+def parseType (t : String) : Option (Nat × Nat × Nat) :=
+  match t.splitOn "." with
+  | [i, o, m] => match i.toNat?, o.toNat?, m.toNat? with
+    | some i, some o, some m => some (i, o, m)
+    | _, _, _ => none
+  | _ => none
+
+/-- `begin eof <spec> <gas> <static> <sections> <types> <data> <datasize> <input> <target> <caller> <value> <env>` -/
+def parseInitEof (toks : List String) : Option IState :=
+  match toks with
+  | [spec, gas, static, secs, types, data, dsize, input, target, caller, value, env] =>
+    match spec.toNat?, gas.toNat?, parseBool? static, parseList "+" parseBytes? secs, parseList "+" parseType types,
+          parseBytes? data, dsize.toNat?, parseBytes? input, parseHex? target, parseHex? caller, parseHex? value,
+          parseEnv env with
+    | some spec, some gas, some static, some secs, some types, some data, some dsize, some input, some target,
+      some caller, some value, some env =>
+      if gas < U64 ∧ secs ≠ [] then
+        some (IState.initEof { sections := secs, types := types, data := data, dataSize := dsize }
+          input gas static (GasCalc.canon spec) target caller value env)
+      else none
+    | _, _, _, _, _, _, _, _, _, _, _, _ => none
+  | _ => none
+
 def parseResp (tok : String) : Option HostResp :=
   if tok = "-" then some { ok := false } else
   match tok.splitOn ":" with
@@ -126,7 +156,10 @@ def stateStr (r : IResult) (s : IState) : String :=
   let n := s.stack.length
   let top := (s.stack.drop (n - 3)).reverse
   let ctx := ctxOf s
-  s!"pc={s.pc} r={r.name} g={s.gas.remaining} rf={s.gas.refunded} n={n} top={wordList top} sd={toHex (digestWords s.stack)} ms={Memory.len s.mem} md={toHex (memWindowDigest ctx)} rd={lenDig s.returnData}"
+  let base := s!"pc={s.pc} r={r.name} g={s.gas.remaining} rf={s.gas.refunded} n={n} top={wordList top} sd={toHex (digestWords s.stack)} ms={Memory.len s.mem} md={toHex (memWindowDigest ctx)} rd={lenDig s.returnData}"
+  match s.eof with
+  | some c => base ++ s!" fs={c.retStack.length}:{c.curIdx} cl={s.code.length}"
+  | none => base
 
 structure St where
   s : Option IState := none
@@ -138,8 +171,13 @@ def faultReply (f : Fault) : String := f.name
 
 def doneReply (d : Done) (hs : String) : St × String :=
   match d with
-  | .next s => ({ s := some s }, stateStr .Continue s ++ hs)
-  | .action a s => ({ s := some s, pending := some a }, stateStr .CallOrCreate s ++ hs ++ s!" act={actionStr a}")
+  | .next s =>
+    -- the harness's check after every instruction: a pointer that will be dereferenced again is inside the buffer
+    if s.pc ≥ s.code.length then ({}, "oob-code") else
+    ({ s := some s }, stateStr .Continue s ++ hs)
+  | .action a s =>
+    if s.pc ≥ s.code.length then ({}, "oob-code") else
+    ({ s := some s, pending := some a }, stateStr .CallOrCreate s ++ hs ++ s!" act={actionStr a}")
   | .halt r out s =>
     ({ s := some s }, stateStr r s ++ hs ++ (if r = .Return ∨ r = .Revert then s!" out={lenDig out}" else ""))
   | .fault f => ({}, faultReply f)
@@ -149,9 +187,14 @@ def begin (toks : List String) : St × String :=
   | some s => ({ s := some s }, s!"ok len={s.code.length} pc={s.pc}")
   | none => ({}, "bad-op")
 
+def beginEof (toks : List String) : St × String :=
+  match parseInitEof toks with
+  | some s => ({ s := some s }, s!"ok len={s.code.length} pc={s.pc}")
+  | none => ({}, "bad-op")
+
 def handle (st : St) (toks : List String) : St × String :=
   match toks, st.s with
-  | ["s", resp], some s =>
+  | ["s", _tag, resp], some s =>
     if st.pending.isSome then (st, "bad-op") else
     match parseResp resp with
     | none => (st, "bad-op")
@@ -160,7 +203,7 @@ def handle (st : St) (toks : List String) : St × String :=
       | .pure d => doneReply d ""
       | .host op k =>
         doneReply (k r) (match hostStr op with | some h => s!" h={h}" | none => "")
-  | ["ret", child], some s =>
+  | ["ret", _tag, child], some s =>
     match st.pending, parseChild child with
     | some a, some c =>
       (match insertOutcome a c s with
@@ -168,7 +211,7 @@ def handle (st : St) (toks : List String) : St × String :=
        | .halt r _ s' => ({ s := some s' }, stateStr r s')
        | .fault f => ({}, faultReply f))
     | _, _ => (st, "bad-op")
-  | ["dump"], some s =>
+  | ["dump", _tag], some s =>
     (st, s!"stack={toHex (digestWords s.stack)} mem={lenDig (ctxOf s)} rd={lenDig s.returnData}")
   | _, _ => (st, "bad-op")
 
